@@ -344,12 +344,27 @@ Definition P_exec (n : nat) : Prop :=
     interesting r ->
     exists b l', cshape l code b l' c c' /\ stmt_post ctx sc sc' e F c c' E stL b r st'.
 
-Definition P_execs (n : nat) : Prop :=
-  forall g k ss ctx c cs c' e st r st' sc sc' l E stL F,
+(* statement lists: the local functions defined on the way join the world; at the end the relation holds for the
+   scope and the callable functions reached, in a world that fixes more than the one at the start.  An exit is
+   seen from the start of the list. *)
+Definition blk_post (ctx : N) (sc sc' : list N) (flr : list (N * nat)) (e : senv) (F : list N) (c c' : N)
+           (E : env) (stL : state) (b : block) (r : SyltSem.res senv) (st' : sstate) : Prop :=
+  match r with
+  | SyltSem.RVal e' =>
+      exists W' E' stL' F',
+        ExecS E b stL (ROk (E', SigNormal) stL') /\ wframe bound c c' E stL E' stL' /\
+        rel pv sv bound u flr W' sc' e' st' E' stL' /\ wsub W W' /\ F_new F F' c c' /\ keep sc E E' /\
+        sext sc e e' /\ incl sc sc' /\
+        (forall p lv, w_IL W' p lv -> w_IL W p lv \/ (s_ncell stL <= p)%positive)     (* what is newly fixed is new *)
+  | _ => exit_post ctx sc e c c' E stL b r st'
+  end.
+
+Definition P_blk (n : nat) : Prop :=
+  forall g k ss ctx c cs c' e st r st' sc sc' flr l E stL F,
     SyltSem.exec_block n e ss st = (r, st') -> mapM (fun s => statement g s ctx) ss c = Ok (cs, c') ->
-    frag_stmts pv sv bound fl k sc ss = Some sc' -> ucovers u (concat cs) -> ctx_ok l F E c c' -> rel pv sv bound u fl W sc e st E stL ->
+    frag_stmts pv sv bound fl k sc ss = Some (sc', flr) -> ucovers u (concat cs) -> ctx_ok l F E c c' -> rel pv sv bound u fl W sc e st E stL ->
     interesting r ->
-    exists b l', cshape l (concat cs) b l' c c' /\ stmt_post ctx sc sc' e F c c' E stL b r st'.
+    exists b l', cshape l (concat cs) b l' c c' /\ blk_post ctx sc sc' flr e F c c' E stL b r st'.
 
 (* the body of an if-branch: its value ends up in the cell p of the result variable `out`, which lives in
    the enclosing range [lo, hi); seen again from the environment the Lua block started with *)
@@ -378,6 +393,22 @@ Definition L_expr (g : nat) : Prop :=
     expression g x ctx c = Ok ((code, v), c') ->
     frag_expr pv sv bound fl k sc x = true ->
     exists b l', cshape l code b l' c c' /\ c <= v /\ v < c'.
+
+Definition L_stmt (g : nat) : Prop :=
+  forall k s ctx c code c' sc sc' l,
+    statement g s ctx c = Ok (code, c') -> frag_stmt pv sv bound fl k sc s = Some sc' ->
+    exists b l', cshape l code b l' c c'.
+
+Definition L_stmts (g : nat) : Prop :=
+  forall k ss ctx c cs c' sc scr l,
+    mapM (fun s => statement g s ctx) ss c = Ok (cs, c') -> frag_stmts pv sv bound fl k sc ss = Some scr ->
+    exists b l', cshape l (concat cs) b l' c c'.
+
+Definition L_fb (g : nat) : Prop :=
+  forall k body ctx c code c' sc scr l,
+    lower_fbody (statement g) (expression g) body ctx c = Ok (code, c') ->
+    frag_stmts pv sv bound fl k sc body = Some scr ->
+    exists b l', cshape l code b l' c c'.
 
 (* ---- functions.  The body of a function, run from the environment of a call: it falls off the end (the
    value is nil) or returns the value of its last expression; the relation holds at the end for the scope
@@ -410,29 +441,11 @@ Proof.
   split; [intros v0 _; reflexivity|]. split; [apply incl_refl|]. split; [apply keep_refl | exact Hn].
 Qed.
 
-(* the statements of a function body before its last one: local functions join the world on the way *)
-Definition body_post (sc sc' : list N) (flr : list (N * nat)) (e : senv) (l' : alut) (c' cend : N) (E : env) (stL : state) (b : block)
-           (r : SyltSem.res senv) (st' : sstate) : Prop :=
-  match r with
-  | SyltSem.RVal e' =>
-      exists W' E' stL' F',
-        ExecS E b stL (ROk (E', SigNormal) stL') /\ rel pv sv bound u flr W' sc' e' st' E' stL' /\ wsub W W' /\
-        ctx_ok l' F' E' c' cend /\ sext sc e e' /\ incl sc sc' /\ keep sc E E' /\ (s_ncell stL <= s_ncell stL')%positive
-  | _ => fb_post sc e E stL b (match r with SyltSem.RVal _ => SyltSem.RVal (SV Values.VLuaNil) | SyltSem.RStop o => SyltSem.RStop o | SyltSem.RAbrupt a => SyltSem.RAbrupt a end) st'
-  end.
-
-Definition P_body (n : nat) : Prop :=
-  forall g k ss ctx c cs c' cend e st r st' sc sc' flr l E stL F,
-    SyltSem.exec_block n e ss st = (r, st') -> mapM (fun s => statement g s ctx) ss c = Ok (cs, c') ->
-    frag_body pv sv bound k fl sc ss = Some (sc', flr) -> ucovers u (concat cs) -> c' <= cend -> ctx_ok l F E c cend ->
-    rel pv sv bound u fl W sc e st E stL -> interesting r ->
-    exists b l', cshape l (concat cs) b l' c c' /\ body_post sc sc' flr e l' c' cend E stL b r st'.
-
 Definition P_fb (n : nat) : Prop :=
   forall g k body ctx c code c' e st r st' sc scout l E stL F,
     SyltSem.block_value n e body st = (r, st') ->
     lower_fbody (statement g) (expression g) body ctx c = Ok (code, c') ->
-    frag_body pv sv bound k fl sc body = Some scout -> ucovers u code -> ctx_ok l F E c c' ->
+    frag_stmts pv sv bound fl k sc body = Some scout -> ucovers u code -> ctx_ok l F E c c' ->
     rel pv sv bound u fl W sc e st E stL -> interesting r ->
     exists b l', cshape l code b l' c c' /\ fb_post sc e E stL b r st'.
 
